@@ -27,8 +27,10 @@ import (
 	"path/filepath"
 	"sort"
 	"strings"
+	"sync"
 	"time"
 
+	"chainguard.dev/apko/pkg/apk/apk"
 	"chainguard.dev/apko/pkg/build"
 	"chainguard.dev/apko/pkg/build/types"
 	"chainguard.dev/apko/pkg/verifapi"
@@ -441,4 +443,150 @@ func reproDimsDesc(c *reproCase) string {
 		fmt.Fprintf(&b, "contents.baseimage (%d packages) + lock file; ", len(c.Base.Pkgs))
 	}
 	return b.String()
+}
+
+// ---- x.collect: the real GetRepositoryIndexes under an imposed completion order ----
+
+// collectCase: n repository lines as handed to GetRepositoryIndexes; Kinds[i] ∈ http | pinned (`@tag url`) | file |
+// missing (a local directory without an index: logged and skipped); Rank[i] = completion rank among the remote
+// lines (the i-th line's index answers after Rank[i]×collectStep), -1 for local lines (they finish at once).
+type collectCase struct {
+	Kinds []string `json:"kinds"`
+	Rank  []int    `json:"rank"`
+}
+
+const collectStep = 35 * time.Millisecond
+
+func genCollect(r *Rng) *collectCase {
+	n := r.Range(2, 6)
+	c := &collectCase{}
+	var remote []int
+	for i := 0; i < n; i++ {
+		k := Pick(r, []string{"http", "http", "http", "pinned", "file", "missing"})
+		if i < 2 {
+			k = Pick(r, []string{"http", "http", "pinned"})
+		}
+		c.Kinds = append(c.Kinds, k)
+		c.Rank = append(c.Rank, -1)
+		if k == "http" || k == "pinned" {
+			remote = append(remote, i)
+		}
+	}
+	r.Shuffle(len(c.Kinds), func(i, j int) {
+		c.Kinds[i], c.Kinds[j] = c.Kinds[j], c.Kinds[i]
+	})
+	remote = remote[:0]
+	for i, k := range c.Kinds {
+		if k == "http" || k == "pinned" {
+			remote = append(remote, i)
+		}
+	}
+	ranks := make([]int, len(remote))
+	for i := range ranks {
+		ranks[i] = i
+	}
+	switch r.Intn(4) {
+	case 0: // the reverse of the line order
+		for i := range ranks {
+			ranks[i] = len(ranks) - 1 - i
+		}
+	case 1: // line order
+	default:
+		r.Shuffle(len(ranks), func(i, j int) { ranks[i], ranks[j] = ranks[j], ranks[i] })
+	}
+	for j, i := range remote {
+		c.Rank[i] = ranks[j]
+	}
+	return c
+}
+
+var (
+	collectRepoOnce sync.Once
+	collectRepo     *SRepo
+)
+
+type collectTransport struct {
+	repo  *SRepo
+	delay map[string]time.Duration // host -> delay of the index download
+}
+
+func (t *collectTransport) RoundTrip(req *http.Request) (*http.Response, error) {
+	if req.Method == http.MethodGet && strings.HasSuffix(req.URL.Path, "/APKINDEX.tar.gz") {
+		time.Sleep(t.delay[req.URL.Host])
+	}
+	st := &SynthTransport{Repo: t.repo, NoTag: true} // no ETag: nothing is remembered between calls, every call downloads
+	return st.RoundTrip(req)
+}
+
+func collectRun(c *collectCase) Step {
+	collectRepoOnce.Do(func() {
+		collectRepo = BuildSynthRepo([]SPkg{{Name: "one", Version: "1.0-r0", Origin: "one", BuildTime: 1600000000,
+			Files: []SFile{{Path: "opt", Type: "dir", Mode: 0o755}, {Path: "opt/one", Type: "file", Mode: 0o644, Content: "1"}}}}, []string{"x86_64"})
+	})
+	work, err := os.MkdirTemp("", "verif-collect-")
+	if err != nil {
+		panic(err)
+	}
+	defer os.RemoveAll(work)
+	n := len(c.Kinds)
+	lines := make([]string, n)
+	src := make([]string, n)
+	bits := make([]byte, n)
+	tr := &collectTransport{repo: collectRepo, delay: map[string]time.Duration{}}
+	type ev struct{ rank, pos int }
+	var local, remote []ev
+	for i, k := range c.Kinds {
+		bits[i] = '1'
+		switch k {
+		case "http", "pinned":
+			host := fmt.Sprintf("c%d.test", i)
+			src[i] = "https://" + host
+			lines[i] = src[i]
+			if k == "pinned" {
+				lines[i] = fmt.Sprintf("@tag%d %s", i, src[i])
+			}
+			tr.delay[host] = time.Duration(c.Rank[i]) * collectStep
+			remote = append(remote, ev{c.Rank[i], i})
+		case "file":
+			src[i] = filepath.Join(work, fmt.Sprintf("f%d", i))
+			lines[i] = src[i]
+			collectRepo.WriteTo(src[i])
+			local = append(local, ev{0, i})
+		default:
+			src[i] = filepath.Join(work, fmt.Sprintf("absent%d", i))
+			lines[i] = src[i]
+			bits[i] = '0'
+			local = append(local, ev{0, i})
+		}
+	}
+	sort.Slice(remote, func(a, b int) bool { return remote[a].rank < remote[b].rank })
+	var sched []string
+	for _, e := range append(local, remote...) {
+		sched = append(sched, fmt.Sprint(e.pos))
+	}
+	keys := map[string][]byte{synthKeyName: collectRepo.KeyPEM}
+	idx, err := apk.GetRepositoryIndexes(context.Background(), lines, keys, "x86_64", apk.WithHTTPClient(&http.Client{Transport: tr}))
+	goOut := "-"
+	if err != nil {
+		goOut = "err:" + firstLine(err.Error())
+	} else if len(idx) > 0 {
+		var ps []string
+		for _, ix := range idx {
+			p := "?"
+			if ix != nil {
+				for i := range src {
+					if ix.Source() == src[i]+"/x86_64/APKINDEX.tar.gz" {
+						p = fmt.Sprint(i)
+					}
+				}
+			} else {
+				p = "nil"
+			}
+			ps = append(ps, p)
+		}
+		goOut = strings.Join(ps, ",")
+	}
+	return Step{Line: fmt.Sprintf("x.collect\t%d\t%s\t%s", n, bits, strings.Join(sched, ",")), Go: goOut,
+		Desc: fmt.Sprintf("GetRepositoryIndexes over the lines %v, indexes ready in the order of positions %v", c.Kinds, sched),
+		Tags: []string{fmt.Sprintf("collect-lines:%d", n), fmt.Sprintf("collect-in-line-order:%v", sort.SliceIsSorted(remote, func(a, b int) bool { return remote[a].pos < remote[b].pos }))}}
 }
